@@ -29,7 +29,7 @@ use std::sync::Mutex;
 use std::sync::atomic::{AtomicU64, Ordering};
 use std::time::Duration;
 
-pub const HOSTILE: [(&str, &str); 14] = [
+pub const HOSTILE: [(&str, &str); 18] = [
     ("plain", "plain"),
     ("double-quote", "a \"q\" b"),
     ("backslash", "a \\ b"),
@@ -44,6 +44,10 @@ pub const HOSTILE: [(&str, &str); 14] = [
     ("control-char", "a\u{1}b"),
     ("trailing-backslash", "dir\\"),
     ("indented-multiline", "  first\n    second\n"),
+    ("carriage-return-only", "a\rb"),
+    ("cr-lf", "a\r\nb"),
+    ("whitespace-only-interior-line", "a\n   \nb"),
+    ("spaces-only", "   "),
 ];
 
 /// evaluate the cooked value of a no-substitution template literal
